@@ -216,9 +216,16 @@ func (c *Checker) Finish(coverage map[string]interface{}, assumptions []string) 
 		"wall_s":      time.Since(c.start).Seconds(),
 		"violations":  unlisted,
 	}
-	os.MkdirAll(filepath.Join(Root(), "evidence"), 0o755)
+	// evidence describes /repo itself: a development run against another
+	// checkout (VERIF_REPO: seeded or benign changes in a scratch worktree)
+	// writes its evidence next to the committed files, never over them
+	evdir := "evidence"
+	if os.Getenv("VERIF_REPO") != "" && os.Getenv("VERIF_REPO") != "/repo" {
+		evdir = filepath.Join(".work", "evidence-alt")
+	}
+	os.MkdirAll(filepath.Join(Root(), evdir), 0o755)
 	js, _ := json.MarshalIndent(ev, "", " ")
-	if err := os.WriteFile(filepath.Join(Root(), "evidence", c.Property+".json"), js, 0o644); err != nil {
+	if err := os.WriteFile(filepath.Join(Root(), evdir, c.Property+".json"), js, 0o644); err != nil {
 		fmt.Fprintln(os.Stderr, "cannot write evidence:", err)
 		return 2
 	}
